@@ -5,7 +5,7 @@ ErrReturn (those are created only by statement lists and consumed by loops / fun
 Induction on fuel over the expression-level functions, given that they start without a
 pending control sentinel.
 -/
-import Anko.Model.Eval
+import Anko.Proofs.EvalCur
 
 set_option linter.unusedSectionVars false
 set_option linter.unusedVariables false
@@ -81,9 +81,8 @@ theorem noSig_spreadFixed (cal : Callee) (nLead numExprs : Nat) (lead : List RV)
 
 theorem noSig_spreadVariadic (lead : List RV) (s2 : St) (h : NoSig s2) : NoSig (spreadVariadic lead s2).2 := by
   unfold spreadVariadic
-  split
-  · exact h
-  · split <;> simp
+  repeat' split
+  all_goals (first | exact h | simp)
 
 theorem noSig_sliceResult (item : Val) (len : Nat) (bi ei : Int) (hc : Bool) (s : St) (h : NoSig s) :
     NoSig (sliceResult item len bi ei hc s) := by
